@@ -32,7 +32,7 @@ from vlib import Evidence, Verdicts, run_tlc, require_tlc_ok
 
 PID = "C11"
 OPNAMES = ["build", "compile", "get", "clone", "call", "drop_handle", "drop_pkg", "drop_rt", "move",
-           "into_func", "call_closure", "drop_closure"]
+           "into_func", "call_closure", "drop_closure", "add_const"]
 FLAVOURS = ["noctx", "ctx"]      # runtime without / with a context type (TypedFunc<NoCtx,_> / TypedFunc<Ctx<C>,_>)
 # drop orders / situations that must occur in the generated behaviours (anti-vacuity)
 SCENARIOS = ["pkg_dropped_before_handle", "rt_dropped_before_pkg", "rt_dropped_before_handle",
@@ -40,7 +40,9 @@ SCENARIOS = ["pkg_dropped_before_handle", "rt_dropped_before_pkg", "rt_dropped_b
              "call_after_recompile", "call_after_other_module_released", "last_handle_releases_module",
              "closure_called_as_last_holder", "closure_called_after_pkg_drop", "closure_called_after_rt_drop",
              "last_closure_releases_module", "closure_dropped_while_others_hold",
-             "same_typed_closures_called_after_rt_drop"]
+             "same_typed_closures_called_after_rt_drop",
+             "constant_added_after_a_compilation", "compiled_after_constant_added_next_to_older_module",
+             "late_constant_read_after_rt_drop"]
 
 
 # ------------------------------------------------------------------ representation mapping
@@ -61,6 +63,7 @@ def scenarios(ops):
     clo = {}       # c -> m
     released = set()
     out = set()
+    late_rt = False
 
     def holders(m):
         return (1 if mods[m]["pobj"] else 0) + sum(1 for x in hnd.values() if x == m) + \
@@ -70,8 +73,15 @@ def scenarios(ops):
         o = op["op"]
         if o == "build":
             rt = op["g"]
+            late_rt = False
+        elif o == "add_const":
+            late_rt = True
+            if any(v["g"] == rt for v in mods.values()):
+                out.add("constant_added_after_a_compilation")
         elif o == "compile":
-            mods[op["m"]] = {"g": rt, "pobj": True}
+            mods[op["m"]] = {"g": rt, "pobj": True, "late": late_rt}
+            if late_rt and any(v["g"] == rt and not v["late"] for v in mods.values()):
+                out.add("compiled_after_constant_added_next_to_older_module")
         elif o == "get":
             hnd[op["h"]] = op["m"]
         elif o == "clone":
@@ -80,6 +90,8 @@ def scenarios(ops):
             m = hnd[op["h"]]
             if not mods[m]["pobj"]:
                 out.add("call_after_pkg_drop")
+            if rt != mods[m]["g"] and mods[m]["late"]:
+                out.add("late_constant_read_after_rt_drop")
             if rt != mods[m]["g"]:
                 out.add("call_after_rt_drop")
                 # every call runs two registered closures of the same Rust type
@@ -137,7 +149,7 @@ def scenarios(ops):
 NONTRIVIAL = {"call_after_pkg_drop", "call_after_rt_drop", "last_clone_on_other_thread",
               "call_after_other_module_released", "last_handle_releases_module",
               "closure_called_as_last_holder", "closure_called_after_pkg_drop", "closure_called_after_rt_drop",
-              "last_closure_releases_module"}
+              "last_closure_releases_module", "late_constant_read_after_rt_drop"}
 
 
 # ------------------------------------------------------------------------------ TLC
@@ -184,8 +196,8 @@ def check_design(tier, ev):
 
 def emit_plan(tier):
     if tier == "quick":
-        return [("empty", 6), ("one", 4), ("clo", 4), ("two", 3), ("reload", 4), ("regen", 3), ("same", 3)], (100, 30)
-    return [("empty", 8), ("one", 4), ("clo", 5), ("two", 3), ("reload", 4), ("regen", 4), ("same", 3)], (600, 45)
+        return [("empty", 6), ("one", 4), ("clo", 4), ("two", 3), ("reload", 4), ("regen", 3), ("same", 3), ("late", 3)], (100, 30)
+    return [("empty", 8), ("one", 4), ("clo", 5), ("two", 3), ("reload", 4), ("regen", 4), ("same", 3), ("late", 4)], (600, 45)
 
 
 def emitted(tier, ev):
@@ -253,7 +265,7 @@ def compare(case, res, verd, flavour="noctx"):
         if live != op["live"]:
             verd.report({"flavour": flavour, "kind_of_failure": "live-count", "op": op["op"],
                          "direction": "early-release" if any(a < b for a, b in zip(live, op["live"])) else "late-release"},
-                        "step %d %s: spec says live instances [script consts v1, v2, registered const, capture of closure 1, 2, 3] = %s, "
+                        "step %d %s: spec says live instances [script consts v1, v2, registered const, capture of closure 1, 2, 3, late registered const] = %s, "
                         "measured %s; history: %s" % (k, strip(op), op["live"], live, [strip(o) for o in ops[:k + 1]]),
                         {"case": case, "flavour": flavour, "step": k, "got": got})
             return False
@@ -285,6 +297,7 @@ def random_history(rng, nops, nslots=6, ncslots=4):
     """Seeded random history; bookkeeping only (which objects exist), no expectations."""
     rt = 0
     ngen = 0
+    late = False   # the live runtime got its late constant
     mods = {}   # m -> pobj alive
     hnd = {}    # slot -> m
     clo = {}    # closure slot -> m
@@ -295,10 +308,12 @@ def random_history(rng, nops, nslots=6, ncslots=4):
         free = [h for h in range(1, nslots + 1) if h not in hnd]
         livepk = [m for m, p in mods.items() if p]
         if rt == 0:
-            if ngen < 900:      # the registered constant's tag 50 + g must stay below 1000
+            if ngen < 800:      # the registered constant's tag 50 + g must stay below 1000
                 cand.append(("build", 4))
         else:
             cand.append(("drop_rt", 0.7))
+            if not late and ngen < 9:      # the late constant's tag 100 * g plus 50 + g must stay below 1000
+                cand.append(("add_const", 0.8))
             if len(livepk) < 4:
                 cand.append(("compile", 3))
         if livepk:
@@ -324,7 +339,11 @@ def random_history(rng, nops, nslots=6, ncslots=4):
         if o == "build":
             ngen += 1
             rt = ngen
+            late = False
             ops.append({"op": "build", "g": ngen})
+        elif o == "add_const":
+            late = True
+            ops.append({"op": "add_const"})
         elif o == "drop_rt":
             rt = 0
             ops.append({"op": "drop_rt"})
